@@ -9,6 +9,7 @@
 -/
 import ASV.Drv.J
 import ASV.Spec.Results
+import ASV.Model.ResultsModules
 namespace ASV.Drv.C11
 open Lean ASV ASV.Drv ASV.Results
 
@@ -79,8 +80,8 @@ def handle (j : Json) : R Json := do
   | "hmmresult" =>
     return reply input (HMMResult.fromJson input) HMMResult.toJson HMMResult.valid
   | "nrpspks" =>
-    let names ← listOf asStr (fldD j "classifiable" (jArr []))
-    let rules : ModRules := ⟨fun n => names.contains n, fun _ _ => true⟩
+    -- C14's transcription of classify / add_component over the regenerated tables
+    let rules : ModRules := c14Rules
     return reply input (NrpsPks.fromJson rules ctx input) NrpsPks.toJson (NrpsPks.valid rules ctx)
       [("may_reuse", toJson (Spec.nrpsPksMayReuse ctx input))]
   | "hmmdet" =>
@@ -100,7 +101,14 @@ def handle (j : Json) : R Json := do
   | "ruleres" =>
     return reply input (RuleRes.fromJson ctx input) RuleRes.toJson (RuleRes.valid ctx)
   | "sideload" =>
-    let out := Sideloaded.regenerate ctx input
+    -- "requested": the JSON of the annotations the current options load (absent = no sideload option)
+    let requested ← match j.getObjVal? "requested" with
+      | .ok rj => do
+        match Sideloaded.fromJson ctx (← wireToJ rj) with
+        | .reuse r => pure (some r)
+        | _ => throw "C11: requested annotations do not decode"
+      | .error _ => pure none
+    let out := Sideloaded.regenerate ctx requested input
     let areas := match out with
       | .reuse y =>
         [("subregions", jArr (y.predictedSubregions.map fun s => jArr [locJ s.1, .str s.2.1, .str s.2.2])),
@@ -108,7 +116,7 @@ def handle (j : Json) : R Json := do
             jArr [locJ p.1, locJ p.2.1, .str p.2.2.1, .str p.2.2.2]))]
       | _ => []
     return reply input out Sideloaded.toJson (Sideloaded.valid ctx)
-      ([("may_reuse", toJson (Spec.sideloadMayReuse ctx input))] ++ areas)
+      ([("may_reuse", toJson (Spec.sideloadMayReuse ctx input && Spec.sideloadSameRequest requested input))] ++ areas)
   | "hmmer" =>
     let maxE ← decOf (← fld j "max_evalue")
     let minS ← decOf (← fld j "min_score")
@@ -120,10 +128,15 @@ def handle (j : Json) : R Json := do
       else HmmerRes.regenerate ctx maxE minS input
     -- reference: the stored hits that satisfy the current thresholds
     let reference := match HmmerRes.fromJson ctx input with
-      | .reuse x => jArr ((Spec.hmmerReference x.hits maxE minS).map fun h => jToWire h.toJson)
+      | .reuse x => jArr ((Spec.hmmerReference x.hits maxE minS).map fun (h : HmmerHit) => jToWire h.toJson)
       | _ => .null
+    let (fresh, onBoundary) := match HmmerRes.fromJson ctx input with
+      | .reuse x => (jArr ((Spec.hmmerFresh x.hits maxE minS).map fun (h : HmmerHit) => jToWire h.toJson),
+                     Spec.hmmerOnBoundary x.hits maxE minS)
+      | _ => (.null, false)
     return reply input out HmmerRes.toJson (HmmerRes.valid ctx)
-      [("may_reuse", toJson (Spec.hmmerMayReuse ctx maxE minS input)), ("reference", reference)]
+      [("may_reuse", toJson (Spec.hmmerMayReuse ctx maxE minS input)), ("reference", reference),
+       ("fresh", fresh), ("on_boundary", toJson onBoundary)]
   | "tta" =>
     -- a history: the stored JSON is regenerated under each threshold in turn; after a discard the
     -- module runs afresh (`detect` on the record's codons)
